@@ -14,6 +14,7 @@ let streams : (string * stream) list = [
   ("C07", { gen = C07.gen; check = C07.check; search = C07.search; describe = C07.describe; tags = C07.tags; strict = false });
   ("C08", { gen = C08.gen; check = C08.check; search = C08.search; describe = C08.describe; tags = C08.tags; strict = false });
   ("C14", { gen = C14.gen; check = C14.check; search = C14.search; describe = C14.describe; tags = C14.tags; strict = true });
+  ("C16", { gen = C16.gen; check = C16.check; search = C16.search; describe = C16.describe; tags = C16.tags; strict = false });
   ("C09", { gen = C09.gen; check = C09.check; search = C09.search; describe = C09.describe; tags = C09.tags; strict = false });
   ("C10", { gen = C10.gen; check = C10.check; search = C10.search; describe = C10.describe; tags = C10.tags; strict = false });
   ("C11", { gen = C11.gen; check = C11.check; search = C11.search; describe = C11.describe; tags = (fun _ _ -> []); strict = false });
